@@ -3,6 +3,7 @@ package harness
 // sysfam.go — workloads on two or more linked registries (black-box families).
 
 import (
+	"github.com/google/uuid"
 	"github.com/pojntfx/panrpc/go/pkg/rpc"
 	"context"
 	"errors"
@@ -121,9 +122,38 @@ func waitAll(wg *sync.WaitGroup, d time.Duration) bool {
 }
 
 // ---- C01: concurrent calls, frames held and released in a seeded order ----
+// midRand: a random source whose 16-byte reads share their first four and last six bytes
+type midRand struct {
+	mu sync.Mutex
+	r  *rand.Rand
+}
+
+func (m *midRand) Read(b []byte) (int, error) {
+	m.mu.Lock()
+	defer m.mu.Unlock()
+	for i := range b {
+		switch k := i % 16; {
+		case k < 4:
+			b[i] = 0xab
+		case k >= 10:
+			b[i] = 0xcd
+		default:
+			b[i] = byte(m.r.Intn(256))
+		}
+	}
+	return len(b), nil
+}
+
 func FamConc[T any](c Codec[T], seed int64) SysRecord {
 	r := rand.New(rand.NewSource(seed))
 	rec := SysRecord{Family: "conc", Config: c.Name + "/message", Seed: seed}
+	if seed%3 == 2 {
+		// identifiers that differ only in their middle bytes (a legal random source): calls, links and passed
+		// functions are told apart by their whole identifier
+		uuid.SetRand(&midRand{r: rand.New(rand.NewSource(seed))})
+		defer uuid.SetRand(nil)
+		rec.Config += "/ids differing in the middle only"
+	}
 	p, err := newPair(c, false, 0, seed)
 	if err != nil {
 		rec.Notes = append(rec.Notes, err.Error())
@@ -141,7 +171,7 @@ func FamConc[T any](c Codec[T], seed int64) SysRecord {
 			from, rem = "B", p.rb
 		}
 		tag := 100 + i
-		kind := r.Intn(9)
+		kind := r.Intn(11)
 		x := int64(r.Intn(1000))
 		s := GenString(r)
 		wg.Add(1)
@@ -180,6 +210,15 @@ func FamConc[T any](c Codec[T], seed int64) SysRecord {
 				c.Method, c.Arg = "EchoIntCancelled", canon(x)
 				v, err := rem.EchoInt(cctx, tag, x)
 				c.Ret, c.Err = canon(v), errText(err)
+			case 9: // a nil pointer argument reaches the handler as a nil pointer
+				c.Method, c.Arg = "EchoPtr", "null"
+				v, err := rem.EchoPtr(context.Background(), tag, nil)
+				c.Ret, c.Err = canon(v), errText(err)
+			case 10:
+				pr := &Rec{}
+				c.Method, c.Arg = "EchoPtr", canon(pr)
+				v, err := rem.EchoPtr(context.Background(), tag, pr)
+				c.Ret, c.Err = canon(v), errText(err)
 			case 6: // a function whose handler returns nothing at all
 				c.Method, c.Arg = "Notify0", "null"
 				err := rem.Notify0(context.Background(), tag)
@@ -212,6 +251,33 @@ func FamConc[T any](c Codec[T], seed int64) SysRecord {
 	p.l.BAres.SetHold(false)
 	if !waitAll(&wg, 8*time.Second) {
 		rec.Hang = true
+	}
+	// a handler that returns at once and, afterwards, uses the context it was given for a call back to the peer
+	// (a subscription that notifies later): that call gets its own handler's result like any other
+	{
+		sctx, scancel := context.WithTimeout(context.Background(), 4*time.Second)
+		_, err := p.ra.SpawnEcho(sctx, 190)
+		scancel()
+		if err != nil {
+			rec.Notes = append(rec.Notes, "SpawnEcho failed: "+err.Error())
+		} else {
+			var got *SysEvent
+			waitUntil(func() bool {
+				for _, e := range p.w.Events() {
+					if e.Kind == "ret" && e.Method == "SpawnedEcho" {
+						e := e
+						got = &e
+						return true
+					}
+				}
+				return false
+			}, 4*time.Second)
+			if got == nil {
+				calls = append(calls, SysCall{Tag: 5190, From: "B", Method: "CallWithHandlerContextAfterReturn", Err: "DID-NOT-RETURN", Done: true})
+			} else {
+				calls = append(calls, SysCall{Tag: 5190, From: "B", Method: "CallWithHandlerContextAfterReturn", Ret: got.Data, Err: got.Err, Done: true})
+			}
+		}
 	}
 	// now and then: a long history of sequential calls on one link (counters, id spaces, tables that only grow)
 	if seed%6 == 1 {
@@ -648,6 +714,23 @@ func FamErrors[T any](c Codec[T], stream bool, chunk int, seed int64, n int) Sys
 		if !waitAll(&wg, 8*time.Second) {
 			rec.Hang = true
 		}
+	}
+	// a call is abandoned by its caller (context cancelled) while its handler is still running; the handler then
+	// returns an ordinary error: that response is for nobody, and it is still only an application-level error
+	{
+		cctx, ccancel := context.WithCancel(ctx)
+		adone := make(chan struct{})
+		go func() { p.ra.GateFail(cctx, 398, "late failure of an abandoned call"); close(adone) }()
+		waitUntil(func() bool { return hasInv(p.w, "GateFail", 398) }, 3*time.Second)
+		ccancel()
+		select {
+		case <-adone:
+		case <-time.After(3 * time.Second):
+			rec.Notes = append(rec.Notes, "a call whose context was cancelled while its handler ran did not return")
+		}
+		close(p.w.gate(398))
+		waitUntil(func() bool { return hasRet(p.w, "GateFail", 398) }, 3*time.Second)
+		time.Sleep(60 * time.Millisecond)
 	}
 	// the link must still be healthy
 	v, err := p.ra.EchoInt(ctx, 399, 42)
@@ -1196,6 +1279,29 @@ func FamNest[T any](c Codec[T], stream bool, chunk int, seed int64) SysRecord {
 	if !waitAll(&inner, 15*time.Second) {
 		rec.Hang = true
 		rec.Notes = append(rec.Notes, fmt.Sprintf("calls issued while %d handlers were stalled did not complete (depth %d)", 2*k, depth))
+	}
+	// the outermost call of a chain is made from inside the registry's enumeration callback (the usual way to
+	// reach a peer); the chain comes back with a function argument: B -> A.CallBackIter -> B.Iter(f) -> f on A.
+	// Only the outermost call is issued from the callback; the nested ones are ordinary handler code.
+	{
+		edone := make(chan SysCall, 1)
+		go func() {
+			var v string
+			var err error
+			ectx, ecancel := context.WithTimeout(ctx, 4*time.Second)
+			defer ecancel()
+			p.b.Reg.ForRemotes(func(id string, rem sysRemote) error {
+				v, err = rem.CallBackIter(ectx, 650)
+				return nil
+			})
+			edone <- SysCall{Tag: 650, From: "B", Method: "ChainFromEnumeration", Ret: v, Err: errText(err), Done: true}
+		}()
+		select {
+		case cl := <-edone:
+			add(cl)
+		case <-time.After(6 * time.Second):
+			add(SysCall{Tag: 650, From: "B", Method: "ChainFromEnumeration", Err: "DID-NOT-RETURN", Done: true})
+		}
 	}
 	// a handler that starts a call back to its peer on a goroutine of its own and returns at once (a
 	// subscription): its response does not wait for that call, whose handler is stalled
